@@ -62,14 +62,28 @@ def run_ops(case: Dict[str, Any]) -> Dict[str, Any]:
                     continue  # re-adding an existing id is misuse (DESIGN 6)
                 g = geo()
                 e = {"v": lambda: mock_vehicle_from_geoid(vehicle_id=i, geoid=g), "r": lambda: mock_request_from_geoids(request_id=i, origin=g, destination=geo()), "s": lambda: mock_station_from_geoid(station_id=i, geoid=g), "b": lambda: mock_base_from_geoid(base_id=i, geoid=g)}[kind]()
-                res = sso.add_entity_safe(sim, e) if rnd.random() < 0.7 else {"v": sso.add_vehicle_safe, "r": sso.add_request_safe, "s": sso.add_station_safe, "b": sso.add_base_safe}[kind](sim, e)
-                desc = f"add {i}@{g}"
+                x = rnd.random()
+                extra = None
+                if x < 0.2:
+                    # several new entities in one call (a second shift of vehicles, a new station), some of them into cells that
+                    # are already occupied
+                    j = next((f"{kind}{q}" for q in range(10, 40) if f"{kind}{q}" not in ids[kind]), None)
+                    g2 = rnd.choice([g, geo()] + [gg for vs in visited.values() for gg in vs[-1:]][:3])
+                    extra = {"v": lambda: mock_vehicle_from_geoid(vehicle_id=j, geoid=g2), "r": lambda: mock_request_from_geoids(request_id=j, origin=g2, destination=geo()), "s": lambda: mock_station_from_geoid(station_id=j, geoid=g2), "b": lambda: mock_base_from_geoid(base_id=j, geoid=g2)}[kind]() if j else None
+                    res = sso.add_entities_safe(sim, [e] + ([extra] if extra is not None else []))
+                    cnt["c08_batch_adds"] += 1
+                else:
+                    res = sso.add_entity_safe(sim, e) if x < 0.75 else {"v": sso.add_vehicle_safe, "r": sso.add_request_safe, "s": sso.add_station_safe, "b": sso.add_base_safe}[kind](sim, e)
+                desc = f"add {i}@{g}" + (f" + {extra.id}@{extra.geoid}" if extra is not None else "")
                 if isinstance(res, Failure):
                     violate("add-refused", f"adding new entity {i} was refused: {res.failure()}")
                     continue
                 sim = res.unwrap()
                 ids[kind].add(i)
                 visited[i].append(g)
+                if extra is not None:
+                    ids[kind].add(extra.id)
+                    visited[extra.id].append(extra.geoid)
                 cnt["c08_adds"] += 1
             elif r < 0.72:
                 i = rnd.choice(pool + ["zz"])
